@@ -98,7 +98,7 @@ func vhArgOp() Operator {
 }
 
 // vhAnyCount is the size of the catalogue of awkward values (C08 part b).
-const vhAnyCount = 38
+const vhAnyCount = 39
 
 // vhAnyValue returns entry k of the catalogue.
 // vhSpecial, when set, replaces catalogue entry 3 (an initialised Stack): it
@@ -192,14 +192,17 @@ func vhAnyValue(k int) any {
 	case 32:
 		return []*int{nil}
 	case 33:
-		return "stdout"
+		five := 5
+		return []*int{&five}
 	case 34:
-		return 1
+		return "stdout"
 	case 35:
-		return LogLevel(4)
+		return 1
 	case 36:
-		return []any{"CONDITION", "mk", Eq, "mv"}
+		return LogLevel(4)
 	case 37:
+		return []any{"CONDITION", "mk", Eq, "mv"}
+	case 38:
 		return []any{"OR", "m1", "m2"}
 	}
 	return nil
